@@ -178,6 +178,9 @@ impl PingPong {
                 ping.sent = true;
             }
         } else if let Some(ref users) = self.user_pings {
+            // Must register before checking state, in case `send_ping` were
+            // to change it (and wake nobody) before we could register.
+            users.0.ping_task.register(cx.waker());
             if users.0.state.load(Ordering::Acquire) == USER_STATE_PENDING_PING {
                 if !dst.poll_ready(cx)?.is_ready() {
                     return Poll::Pending;
@@ -189,8 +192,6 @@ impl PingPong {
                     .0
                     .state
                     .store(USER_STATE_PENDING_PONG, Ordering::Release);
-            } else {
-                users.0.ping_task.register(cx.waker());
             }
         }
 
